@@ -296,7 +296,7 @@ impl<'tcx> Cx<'tcx> {
                             _ => format!(r#"{{"id":null,"decl":{},"local":{},"tyargs":[{}]}}"#, esc(&self.path(*cdid)), cdid.is_local(),
                                     gargs.types().map(|t| self.ty(t)).collect::<Vec<_>>().join(",")),
                         }
-                    } else { format!(r#"{{"id":null,"indirect":{}}}"#, esc(&fty.to_string())) };
+                    } else { format!(r#"{{"id":null,"indirect":{},"op":{}}}"#, esc(&fty.to_string()), self.operand(func, env)) };
                     format!(r#"{{"t":"call","func":{},"args":[{}],"dest":{},"target":{},"span":{},"expn":{}}}"#,
                         resolved,
                         args.iter().map(|a| self.operand(&a.node, env)).collect::<Vec<_>>().join(","),
